@@ -1,13 +1,13 @@
-\* C11 thorough: two directories, <= 4 file-system operations
+\* C11, loose existence filter: one directory (present or missing at start), Spec name + temporary name, 2 contents, <= 4 file-system operations
 SPECIFICATION Spec
 CONSTANTS
-  D = {"A", "B"}
-  DirOptions = {{"A", "B"}}
+  D = {"A"}
+  DirOptions = {{"A"}}
   MaxFsOps = 4
   MaxConfs = 0
   MaxWids = 1
   STARTS = {TRUE, FALSE}
-  WithTmp = FALSE
+  WithTmp = TRUE
   WithShortage = FALSE
   WithRenameAway = FALSE
   FIX_CREATE = TRUE
@@ -17,7 +17,7 @@ CONSTANTS
   FIX_SCANWATCHED = TRUE
   FIX_RETRY = TRUE
   FIX_OVERFLOW = TRUE
-  LooseFilter = FALSE
+  LooseFilter = TRUE
   QMax = 99
   RECORD = FALSE
 INVARIANTS TypeOK Bounded WatchesOK
